@@ -45,24 +45,29 @@ InitCtor == /\ kind = "ctor" /\ buf = "clean" /\ attempted = FALSE /\ phase = "b
 Init == InitBuilder \/ InitCtor
 
 (* core/src/params.rs:100-108 (insert) and :88-98 (insert_named) - success path *)
-Insert(v) ==
-  /\ phase = "open" /\ Len(hist) < MaxOps
+(* Named inserts also choose the member name: "fresh" - a name not used before in this history, "again" - the name of the   *)
+(* history's first insert (so three inserts can hit one name).  The statement asks for "the same key/value pairs"; for a      *)
+(* repeated name the tree writes both members, another reading keeps the last - every reading agrees on what the object is    *)
+(* when parsed as a map (the last successfully inserted value of each name), and that is what the replay demands.             *)
+Names(k) == IF k = "object" /\ hist # <<>> THEN {"fresh", "again"} ELSE {"fresh"}
+Insert(v, nm) ==
+  /\ phase = "open" /\ Len(hist) < MaxOps /\ nm \in Names(kind)
   /\ attempted' = TRUE
   /\ IF buf = "junk"
        THEN /\ buf' = "junk" /\ items' = items     \* bytes appended after junk; nothing meaningful can be said
        ELSE /\ buf' = "clean" /\ items' = Append(items, v)
-  /\ hist' = Append(hist, [op |-> "ins", v |-> v, res |-> "ok"])
+  /\ hist' = Append(hist, [op |-> "ins", v |-> v, res |-> "ok", nm |-> nm])
   /\ UNCHANGED <<kind, phase, out>>
 
 (* the same calls when `to_writer` returns Err after having written part of the value *)
-InsertFails(f) ==
-  /\ phase = "open" /\ Len(hist) < MaxOps
+InsertFails(f, nm) ==
+  /\ phase = "open" /\ Len(hist) < MaxOps /\ nm \in Names(kind)
   /\ attempted' = TRUE
   /\ items' = items
   /\ buf' = IF TruncateOnError THEN buf
             ELSE IF f = "f0" /\ kind = "array" THEN (IF buf = "empty" THEN "clean" ELSE buf)
             ELSE "junk"                                             \* object: the key and ':' are already there
-  /\ hist' = Append(hist, [op |-> "fail", v |-> f, res |-> "err"])
+  /\ hist' = Append(hist, [op |-> "fail", v |-> f, res |-> "err", nm |-> nm])
   /\ UNCHANGED <<kind, phase, out>>
 
 (* core/src/params.rs:110-126 *)
@@ -72,8 +77,8 @@ Build ==
   /\ out' = IF buf = "junk" THEN Panic ELSE IF buf = "empty" THEN None ELSE Some(items)
   /\ UNCHANGED <<kind, items, buf, attempted, hist>>
 
-Next == \/ \E v \in VClass : Insert(v)
-        \/ \E f \in FClass : InsertFails(f)
+Next == \/ \E v \in VClass, nm \in {"fresh", "again"} : Insert(v, nm)
+        \/ \E f \in FClass, nm \in {"fresh", "again"} : InsertFails(f, nm)
         \/ Build
 
 Spec == Init /\ [][Next]_vars
